@@ -19,9 +19,17 @@ pub enum StepMode {
     StepWait,
 }
 
+#[cfg(not(loom))]
 thread_local! {
     static MODE: Cell<StepMode> = const { Cell::new(StepMode::Off) };
     static STEPS: Cell<u64> = const { Cell::new(0) };
+}
+
+// loom runs every modelled thread on one OS thread, so it needs its own thread-locals.
+#[cfg(loom)]
+loom::thread_local! {
+    static MODE: Cell<StepMode> = Cell::new(StepMode::Off);
+    static STEPS: Cell<u64> = Cell::new(0);
 }
 
 static STOP: AtomicBool = AtomicBool::new(false);
